@@ -811,15 +811,31 @@ def check_guess_bounds(rng, ctx, models, y_of, kind, case):
 
 
 # --------------------------------------------------------------------- cases ---
+def history_probe(m):
+    """Do what a caller may do with what the model hands out (the returned name set and bounds dict are
+    the caller's): on a model whose accessors return independent objects this changes nothing."""
+    try:
+        names = m.param_names
+        names.add('__injected__')
+        if len(names) > 1:
+            names.discard(sorted(names)[0])
+        bounds = m.param_bounds
+        bounds.clear()
+        bounds['__injected__'] = (0.0, 1.0)
+    except Exception:  # noqa: BLE001
+        pass
+    return m
+
+
 def build_leaf(M, spec):
     k = spec['kind']
     if k == 'gauss':
-        return M.GaussianModel(prefix=spec['prefix'])
+        return history_probe(M.GaussianModel(prefix=spec['prefix']))
     if k == 'lorentz':
-        return M.LorentzianModel(prefix=spec['prefix'])
+        return history_probe(M.LorentzianModel(prefix=spec['prefix']))
     if k == 'pvoigt':
-        return M.PseudoVoigtModel(prefix=spec['prefix'])
-    return M.PolynomialModel(degree=spec['degree'], prefix=spec['prefix'])
+        return history_probe(M.PseudoVoigtModel(prefix=spec['prefix']))
+    return history_probe(M.PolynomialModel(degree=spec['degree'], prefix=spec['prefix']))
 
 
 def scale_band(s):
@@ -992,8 +1008,8 @@ def build_model(rng, M, spec, use_add):
     left = build_model(rng, M, spec['left'], use_add)
     right = build_model(rng, M, spec['right'], use_add)
     if spec['prefix'] == '' and use_add:
-        return left + right
-    return M.CompositeModel(left, right, prefix=spec['prefix'])
+        return history_probe(left + right)
+    return history_probe(M.CompositeModel(left, right, prefix=spec['prefix']))
 
 
 def full_params(spec, leaf_values, acc=''):
